@@ -169,6 +169,7 @@ type Engine struct {
 	specLimit    int64
 	noIfConv     bool
 	fmtSeq       int
+	crashWhere   string
 	intrinsics   map[string]intrinsic
 
 	// per path
@@ -374,36 +375,27 @@ func (e *Engine) concretise(t *Term, what string) int64 {
 	}
 	e.ensureModel()
 	v = e.model.Eval(t)
-	// the alternative: t != v (and != earlier exclusions carried in Site)
-	ne := e.ts.Not(e.ts.Eq(t, e.ts.Const(t.W, v)))
-	r, m, _ := e.check(ne, true)
-	if r != Unsat {
-		// enumerate: the pending item re-enters concretise with an exclusion list
-		cnt := 1
-		cur := m
-		pcSave := len(e.pc)
-		e.assume(ne)
-		for r != Unsat {
-			if cur == nil {
-				e.pc = e.pc[:pcSave]
-				e.unsupported("solver unknown while concretising " + what)
-			}
-			v2 := cur.Eval(t)
-			d := Decision{Kind: "cz", Val: int64(v2)}
-			np := make([]Decision, len(e.trace)+1)
-			copy(np, e.trace)
-			np[len(e.trace)] = d
-			e.pending = append(e.pending, workItem{prefix: np, model: cur})
-			cnt++
-			if cnt > e.cfg.MaxConc {
-				e.pc = e.pc[:pcSave]
-				panic(pathEnd{kind: "budget", reason: fmt.Sprintf("more than %d values while concretising %s at %s", e.cfg.MaxConc, what, e.where())})
-			}
-			ne2 := e.ts.Not(e.ts.Eq(t, e.ts.Const(t.W, v2)))
-			e.assume(ne2)
-			r, cur, _ = e.check(nil, true)
+	// enumerate the other feasible values (as one growing exclusion term; the pc is untouched)
+	excl := e.ts.Not(e.ts.Eq(t, e.ts.Const(t.W, v)))
+	cnt := 1
+	for {
+		r, cur, _ := e.check(excl, true)
+		if r == Unsat {
+			break
 		}
-		e.pc = e.pc[:pcSave]
+		if r != Sat || cur == nil {
+			e.unsupported("solver unknown while concretising " + what)
+		}
+		v2 := cur.Eval(t)
+		np := make([]Decision, len(e.trace)+1)
+		copy(np, e.trace)
+		np[len(e.trace)] = Decision{Kind: "cz", Val: int64(v2)}
+		e.pending = append(e.pending, workItem{prefix: np, model: cur})
+		cnt++
+		if cnt > e.cfg.MaxConc {
+			panic(pathEnd{kind: "budget", reason: fmt.Sprintf("more than %d values while concretising %s at %s", e.cfg.MaxConc, what, e.where())})
+		}
+		excl = e.ts.And(excl, e.ts.Not(e.ts.Eq(t, e.ts.Const(t.W, v2))))
 	}
 	e.trace = append(e.trace, Decision{Kind: "cz", Val: int64(v)})
 	e.assume(e.ts.Eq(t, e.ts.Const(t.W, v)))
